@@ -116,7 +116,13 @@ class CHECK(Check):
         n = 4000 if tier == "quick" else 120000
         for _ in range(n):
             fs = gen_bin_layout(rng)
-            yield {"t": "line", "fields": fs, "values": [gen_bin_value(rng, fd) for fd in fs]}
+            case = {"t": "line", "fields": fs, "values": [gen_bin_value(rng, fd) for fd in fs]}
+            if len(fs) > 1 and rng.random() < 0.2:
+                # fewer values than fields: the remaining fields are written as missing values, the record keeps its width
+                k = rng.randint(0, len(fs) - 1)
+                case["values"] = case["values"][:k] + [None] * (len(fs) - k)
+                case["nvals"] = k
+            yield case
         for _ in range(1500 if tier == "quick" else 30000):
             fd = gen_bin_layout(rng)[0]
             ln = rng.randint(0, fd["start"] + fd["size"] + 3)
@@ -136,7 +142,7 @@ class CHECK(Check):
             return {"read": [fl.canon_value(x) for x in r], "w2": list(w)}
         try:
             h = self.case_hash(case)
-            w = line.write([fl.py_value_typed(v, (h >> (3 * i + 1)) if h & 1 else 0) for i, v in enumerate(case["values"])])
+            w = line.write([fl.py_value_typed(v, (h >> (3 * i + 1)) if h & 1 else 0) for i, v in enumerate(case["values"])][: case.get("nvals", len(case["values"]))])
         except OverflowError:
             return {"raised": "OverflowError"}
         r = line.read(w)
@@ -149,7 +155,7 @@ class CHECK(Check):
         ctor = [[[fl.field_sx(fd), []] for fd in case["fields"]], [], [], True]
         if case["t"] == "pat":
             return [0, ctor, [[4, case["bytes"]], [10]]]
-        vals = [fl.value_sx(v) for v in case["values"]]
+        vals = [fl.value_sx(v) for v in case["values"]][: case.get("nvals", len(case["values"]))]
         return [0, ctor, [[8, vals], [5, vals], [9], [10]]]
 
     def model_obs(self, case, res):
